@@ -151,6 +151,7 @@ type Report struct {
 	Stats       map[string]int    `json:"stats"`
 	Diffs       []Diff            `json:"diffs"`
 	NDiffs      int               `json:"ndiffs"`
+	ClassCounts map[string]int    `json:"class_counts"` // diffs per known-finding class ("" = unclassified)
 	States      int               `json:"states,omitempty"`
 	Transitions int               `json:"transitions,omitempty"`
 	Exhaustive  bool              `json:"exhaustive,omitempty"`
@@ -162,7 +163,7 @@ type Report struct {
 }
 
 func NewReport(component, rule string) *Report {
-	return &Report{Component: component, Rule: rule, Stats: map[string]int{}, Extra: map[string]string{},
+	return &Report{Component: component, Rule: rule, Stats: map[string]int{}, Extra: map[string]string{}, ClassCounts: map[string]int{},
 		seen: map[[8]byte]struct{}{}, start: time.Now()}
 }
 
@@ -190,7 +191,9 @@ func (r *Report) Stat(name string) { r.Stats[name]++ }
 
 func (r *Report) AddDiff(d Diff) {
 	r.NDiffs++
-	if len(r.Diffs) < 25 {
+	r.ClassCounts[d.Class]++
+	// keep every unclassified diff up to 25, and a few examples of each class
+	if (d.Class == "" && r.ClassCounts[""] <= 25) || (d.Class != "" && r.ClassCounts[d.Class] <= 3) {
 		if d.Component == "" {
 			d.Component = r.Component
 		}
